@@ -6,7 +6,7 @@ C40 line-protocol driver.
   copier <reads> <writes> => calls=<hex/…>;err=<e>;closes=<order>
       one real `pipe(...)` goroutine body over scripted streams. reads = `/`-separated `<hex>.<err>`,
       writes = `/`-separated `<n>.<err>`; err ∈ n | eof | short | invalid | e<k>; `-` = empty script.
-      closes: W = the stream written to, R = the stream read from, in call order.
+      closes: W = the stream written to, R = the stream read from (sorted: the order is not part of the property).
   pipe2 <A.reads> <A.writes> <B.reads> <B.writes> => AB=<calls>;BA=<calls>;errs=<sorted,…>;cA=<n>;cB=<n>;chan=closed|open
       real `Pipe(A, B)` over two scripted streams.
   live <who closes> <hexA> <hexB> <tail hex> => AB=<hex>;BA=<hex>;tail=<hex>;end=<eof|closed|…>;cX=<n>;cY=<n>;nerr=<k>;chan=closed|open
@@ -72,7 +72,7 @@ def step (_ : Unit) (toks : List String) (rhs : String) : Unit × Verdict :=
     match parseList parseRead rs, parseList parseWrite ws with
     | some rs, some ws =>
       let out := copy rs ws
-      let model := s!"calls={callsStr out.calls};err={errStr out.err};closes=WR"
+      let model := s!"calls={callsStr out.calls};err={errStr out.err};closes=RW"
       -- property: with a destination that accepts everything, all source bytes up to its end arrive, in order;
       -- both streams are closed; the reported error is the source's
       let closes := field rhs "closes"
